@@ -360,6 +360,7 @@ def EnvOK (E : Env) : Prop :=
 
 theorem xsdString_facts : xsdString ≠ [] ∧ xsdString ≠ rdfLangString ∧ xsdString ≠ rdfDirLangString := by decide
 theorem xmlLit_facts : rdfXMLLiteral ≠ [] ∧ rdfXMLLiteral ≠ rdfLangString ∧ rdfXMLLiteral ≠ rdfDirLangString := by decide
+theorem htmlLit_facts : rdfHTML ≠ [] ∧ rdfHTML ≠ rdfLangString ∧ rdfHTML ≠ rdfDirLangString := by decide
 theorem langString_facts : rdfLangString ≠ [] ∧ rdfLangString ≠ rdfDirLangString := by decide
 
 theorem wf_plain (lex dt : Bytes) (h1 : dt ≠ []) (h2 : dt ≠ rdfLangString) (h3 : dt ≠ rdfDirLangString) :
@@ -465,20 +466,28 @@ theorem propertyValue_spec (E : Env) (hE : EnvOK E) (active : Bool) (n : Node) (
             exact ⟨_, rfl, wf_plain _ _ xmlLit_facts.1 xmlLit_facts.2.1 xmlLit_facts.2.2⟩
           · exact ⟨hc, by intro v hv; cases hv⟩
         · split
-          · refine ⟨hc, ?_⟩
-            intro v hv
-            simp only [Option.some.injEq] at hv
-            subst hv
-            exact ⟨_, rfl, wf_plain _ _ xsdString_facts.1 xsdString_facts.2.1 xsdString_facts.2.2⟩
-          · have h2 := valueResource_spec E n a l st1 ht
-            generalize valueResource E n a l st1 = r2 at h2 ⊢
-            obtain ⟨v2, st2⟩ := r2
-            simp only at h2 ⊢
-            refine ⟨by rw [h2.1, hc], ?_⟩
-            intro v hv
-            simp only [Option.some.injEq] at hv
-            subst hv
-            exact h2.2
+          · split
+            · refine ⟨hc, ?_⟩
+              intro v hv
+              simp only [Option.some.injEq] at hv
+              subst hv
+              exact ⟨_, rfl, wf_plain _ _ htmlLit_facts.1 htmlLit_facts.2.1 htmlLit_facts.2.2⟩
+            · exact ⟨hc, by intro v hv; cases hv⟩
+          · split
+            · refine ⟨hc, ?_⟩
+              intro v hv
+              simp only [Option.some.injEq] at hv
+              subst hv
+              exact ⟨_, rfl, wf_plain _ _ xsdString_facts.1 xsdString_facts.2.1 xsdString_facts.2.2⟩
+            · have h2 := valueResource_spec E n a l st1 ht
+              generalize valueResource E n a l st1 = r2 at h2 ⊢
+              obtain ⟨v2, st2⟩ := r2
+              simp only at h2 ⊢
+              refine ⟨by rw [h2.1, hc], ?_⟩
+              intro v hv
+              simp only [Option.some.injEq] at hv
+              subst hv
+              exact h2.2
 
 theorem applyLang_wf (lang : Option Bytes) (hl : lang ≠ some []) (o : Obj) (ho : WFObj o) :
     ∃ x, applyLang lang (some o) = some x ∧ WFObj x := by
